@@ -929,6 +929,17 @@ class SyncObj(object):
                     self.__sendNextNodeIdx(node, success=False, reset=True)
                     return
                 if prevEntries[0][2] != prevLogTerm:
+                    if prevLogIdx > self.__raftLog[0][1]:
+                        # The conflicting entry and everything after it can never be committed - drop them now.
+                        # Otherwise the replies to append_entries which are already in flight (rejected as
+                        # 'unknown index') set the leader's next index forward again and the leader backs
+                        # off to the same position forever.
+                        if self.__conf.dynamicMembershipChange:
+                            for entry in reversed(prevEntries):
+                                clusterChangeRequest = self.__parseChangeClusterRequest(entry[0])
+                                if clusterChangeRequest is not None:
+                                    self.__doChangeCluster(clusterChangeRequest, reverse=True)
+                        self.__deleteEntriesFrom(prevLogIdx)
                     self.__sendNextNodeIdx(node, nextNodeIdx = prevLogIdx, success = False, reset=True)
                     return
                 if len(prevEntries) > 1:
